@@ -81,3 +81,12 @@ Definition slide (ds : list dir) (s occ : N) : N := set_of (flat_map (fun d => s
 Definition rook_attacks (s occ : N) : N := slide rook_dirs s occ.
 Definition bishop_attacks (s occ : N) : N := slide bishop_dirs s occ.
 Definition queen_attacks (s occ : N) : N := N.lor (rook_attacks s occ) (bishop_attacks s occ).
+
+(* occupancy-dependent pawn helpers (specification, generic in occ) *)
+Definition pawn_quiets_spec (c : color) (s occ : N) : N :=
+  match sq_off s 0 (fwd c) with
+  | None => 0
+  | Some t1 => if N.testbit occ t1 then 0 else N.ldiff (pawn_push_geo c s) occ
+  end.
+Definition pawn_attacks_spec (c : color) (s occ : N) : N := N.land (pawn_att_geo c s) occ.
+Definition pawn_moves_spec (c : color) (s occ : N) : N := N.lor (pawn_quiets_spec c s occ) (pawn_attacks_spec c s occ).
